@@ -244,6 +244,7 @@ class Interp:
         self.notes = []
         self.python_float_division = False
         self.in_container_compare = False
+        self._ext_exc = {}
         self.loop_bound = 64
         # per-path state
         self.prefix = []
@@ -381,6 +382,13 @@ class Interp:
         self.mutations.append(obj)
 
     # ---------------------------------------------------------- exceptions
+    def external_exc(self, name):
+        """exception class of a library (known only by name): a direct subclass of Exception"""
+        if name not in self._ext_exc:
+            base = EXC["Warning"] if name.endswith("Warning") else EXC["Exception"]
+            self._ext_exc[name] = ClassVal(name.rsplit(".", 1)[-1], [base], {"__external__": True})
+        return self._ext_exc[name]
+
     def make_exc(self, cls, args=()):
         if isinstance(cls, str):
             cls = EXC[cls]
@@ -676,6 +684,8 @@ class Interp:
             return fn.fn(self, *args, **kwargs)
         if isinstance(fn, LibRef):
             impl = self.lib.get(fn.name)
+            if impl is None and fn.name.rsplit(".", 1)[-1].endswith(("Error", "Exception", "Warning")):
+                return self.instantiate(self.external_exc(fn.name), args, kwargs)
             if impl is None:
                 raise Unsupported(f"no library model for {fn.name}")
             self.trusted.add(f"libmodel:{fn.name}")
@@ -1021,6 +1031,7 @@ class Interp:
                     else:
                         t = self.eval(h.type, env, mod)
                         classes = t if isinstance(t, tuple) else (t,)
+                        classes = tuple(self.external_exc(c.name) if isinstance(c, LibRef) else c for c in classes)
                         match = any(isinstance(c, ClassVal) and pr.exc.cls.issub(c) for c in classes)
                     if match:
                         handled = True
